@@ -75,6 +75,57 @@ def rule_member_candidates(chk):
                     [names[i] for i in order], q, sorted(got) if isinstance(got, set) else got, sorted(want) if isinstance(want, set) else want)
     chk.ob("C16.member/candidates", bad is None, bad or "%d lookups over %d declaration orders: every overload of the name, and only those" % (n, len(orders)), where(fn), sample={"lookups": n})
 
+def rule_overload_identity(chk):
+    """Which declarations are the same overload: Context::check_existing_functions_in_scope read on a model scope that
+    holds one function, against new signatures whose parameter lists are built from {in, out, inout} x {T, U}. A new
+    declaration is a redeclaration of the existing function exactly when the parameter lists are identical (types AND
+    in / out / inout); anything else is another overload and must enter the candidate set - merging `f(out T)` with
+    `f(inout T)` makes the selected function depend on which one was declared first."""
+    f = chk.facts
+    fn = f.fn("check_existing_functions_in_scope", TY)
+    if not fn:
+        chk.note("C16.overloads: check_existing_functions_in_scope not found; not decided")
+        return
+    opt = lambda v: I.Enum("Option", "None") if v is None else I.Enum("Option", "Some", {"0": v})
+    pt = lambda t, m: I.Enum("ParamType", None, {"type_id": I.Enum("TypeId", None, {"0": t}), "input_modifier": I.Enum("InputModifier", m), "interpolation_modifier": opt(None), "precise": False})
+    slots = [(3, "In"), (3, "Out"), (3, "InOut"), (4, "In"), (4, "Out")]
+    lists = [[s_] for s_ in slots] + [[a, b] for a in slots[:3] for b in slots[:4]]
+    sig = lambda ps: I.Enum("FunctionSignature", None, {"return_type": I.Opaque("return type"), "template_params": [], "param_types": [pt(*p_) for p_ in ps]})
+    show = lambda ps: "f(%s)" % ", ".join("%s%s" % ({"In": "", "Out": "out ", "InOut": "inout "}[m], {3: "T", 4: "U"}[t]) for t, m in ps)
+    name = I.Enum("Located", None, {"node": "f", "location": I.Opaque("location")})
+    bad = None
+    n = 0
+    for existing in lists:
+        for new in lists:
+            for has_impl, is_def in ((False, False), (True, True), (False, True)):
+                ext = {"find_identifier_in_scope": lambda a: opt(I.Enum("VariableExpression", "Function", {"0": I.Enum("UnresolvedFunction", None, {"overloads": [I.Enum("FunctionId", None, {"0": 0})]})})),
+                       "FunctionRegistry::get_function_signature": lambda a, e_=existing: sig(e_), "FunctionRegistry::get_function_implementation": lambda a, h=has_impl: opt(I.Opaque("implementation") if h else None),
+                       "FunctionRegistry::get_intrinsic_data": lambda a: opt(None)}
+                ctx = I.Enum("Context", None, {"module": I.Enum("Module", None, {"function_registry": I.Opaque("function registry")}), "scopes": [I.Opaque("scope")]})
+                try:
+                    r = I.Interp(f, max_depth=6, extern=ext).apply(fn, [ctx, 0, name, sig(new), is_def])
+                except I.Unknown as e:
+                    if "panicking" in str(e):
+                        bad = bad or "declaring %s after %s aborts (%s)" % (show(new), show(existing), str(e)[:60])
+                        n += 1
+                        continue
+                    chk.unreadable("C16.overloads/identity", "check_existing_functions_in_scope on a model scope", str(e)[:100], where(fn))
+                    return
+                n += 1
+                same = existing == new
+                if isinstance(r, I.Enum) and r.variant == "Ok":
+                    d = r.fields["0"]
+                    got = "redeclaration" if isinstance(d, I.Enum) and d.variant == "Some" else "new overload"
+                else:
+                    got = "refused"
+                want = ("refused" if (is_def and has_impl) else "redeclaration") if same else "new overload"
+                if got != want and bad is None:
+                    bad = "declaring %s after %s%s is treated as %s; it is %s" % (show(new), show(existing), " (both with bodies)" if has_impl and is_def else "", got,
+                                                                                   "the same function" if same else "another overload: the parameter lists differ, both must be candidates")
+    chk.ob("C16.overloads/identity", bad is None, bad or "%d declaration pairs: the same overload exactly when the parameter lists are identical" % n, where(fn), sample={"pairs": n})
+    chk.floor("C16.floor/declaration-pairs", n, 500, "declaration pairs evaluated", where(fn))
+
+
 def run(chk):
     f = chk.facts
     ip = I.Interp(f)
@@ -82,6 +133,7 @@ def run(chk):
     rule_dimension_total(chk, ip)
     rule_candidates_once(chk)
     rule_member_candidates(chk)
+    rule_overload_identity(chk)
     fft = chk.anchor("C16.anchor/find_function_type", f.fn("find_function_type", TY), "find_function_type")
     if fft:
         resolved = False
